@@ -6,6 +6,7 @@ import (
 	"fmt"
 	"math/big"
 	"runtime"
+	"runtime/debug"
 	"sort"
 	"strings"
 	"sync"
@@ -39,6 +40,8 @@ type fakeStore struct {
 	meta                   map[string]map[string]string // existing accounts and their metadata
 	allAccountsExist       bool
 	balErr, accErr         error
+	uniform                *big.Int // when set, every queried pair has this balance
+	dropBalances           bool     // misbehaving store: answers with an empty map
 }
 
 func newFakeStore(env *gen.Env) *fakeStore {
@@ -50,11 +53,16 @@ func (s *fakeStore) GetBalances(_ context.Context, q ledgerstore.BalanceQuery) (
 		return nil, s.balErr
 	}
 	out := ledger.Balances{}
+	if s.dropBalances {
+		return out, nil
+	}
 	for acc, assets := range q {
 		m := map[string]*big.Int{}
 		for _, a := range assets {
 			v := new(big.Int)
-			if b, ok := s.bal[acc][a]; ok {
+			if s.uniform != nil {
+				v.Set(s.uniform)
+			} else if b, ok := s.bal[acc][a]; ok {
 				v.Set(b)
 			}
 			m[a] = v
@@ -493,3 +501,7 @@ func shortErr(err error) string {
 	}
 	return s
 }
+
+// tuneRuntime: the checks allocate many short-lived objects (parse trees, big
+// ints); a lazier GC roughly halves the wall time. One check runs per process.
+func tuneRuntime() { debug.SetGCPercent(800) }
